@@ -137,7 +137,7 @@ FLOORS = {
     "C02": {"quick": {"cases": 32204, "distinct_nontrivial": 1652, "gets": 13015}},
     "C03": {"quick": {"cases": 960, "distinct_nontrivial": 193, "c03_inside_checks": 204096, "factory_puts": 58589}},
     "C04": {"quick": {"cases": 32204, "distinct_nontrivial": 2950, "grants_after_wait": 40353}},
-    "C05": {"quick": {"cases": 33644, "distinct_nontrivial": 4673, "c05_grants_checked": 155073}},
+    "C05": {"quick": {"cases": 33644, "distinct_nontrivial": 4673, "c05_grants_checked": 155073, "e1_token_addresses_reused": 20000, "e1_script_level_ops": 20000}},
     "C06": {"quick": {"cases": 32204, "distinct_nontrivial": 422, "c06_bindings_checked": 31593}},
     "C07": {"quick": {"cases": 7918, "distinct_nontrivial": 3242, "c07_illformed_calls": 61103}},
     "C08": {"quick": {"cases": 960, "distinct_nontrivial": 143, "c08_offers_checked": 29551}},
@@ -150,8 +150,8 @@ FLOORS = {
     "C15": {"quick": {"cases": 960, "distinct_nontrivial": 428, "c15_nodes_out_checked": 3302, "c15_fa_out_checks": 12092}},
     "C16": {"quick": {"cases": 960, "distinct_nontrivial": 786, "c16_pallets_checked": 9499, "unpacks": 9781, "c16_splitter_pallets_checked": 3949}},
     "C17": {"quick": {"cases": 960, "distinct_nontrivial": 744, "c17_nodes_checked": 4628, "c17_integrations": 3532}},
-    "C18": {"quick": {"cases": 1920, "distinct_nontrivial": 1034, "c18_edge_avg_checks": 4405, "c18_received_items": 17513}},
-    "C19": {"quick": {"cases": 19, "distinct_nontrivial": 8, "c19_runs_compared": 96, "c19_child_interpreters": 38}},
+    "C18": {"quick": {"cases": 1920, "distinct_nontrivial": 1034, "c18_edge_avg_checks": 4405, "c18_received_items": 17513, "c18_intermediate_finalisations": 400}},
+    "C19": {"quick": {"cases": 19, "distinct_nontrivial": 8, "c19_runs_compared": 96, "c19_child_interpreters": 38, "c19_store_histories_compared": 2000, "c19_store_addresses_reused": 10000}},
     "C20": {"quick": {"cases": 2234, "distinct_nontrivial": 1274, "c20_matrix_models": 2592, "c20_invalid_configs": 38}},
 }
 for _p, _d in FLOORS.items():
